@@ -40,7 +40,7 @@ Proof.
   intros [Hd Hn].
   assert (K : tr_search contents badl ce calls st sch (run_model (Text contents badl ce calls st sch)) = true).
   { unfold tr_search. cbn [run_model]. rewrite (wrap_plain _ Hn).
-    exact (lin_accepts (robj tobj) nat (rls tls) (rcall tcall) (option R) unit (rbegin _ _ t_begin)
+    exact (lin_accepts (robj tobj) nat (rls tls) (rcall tcall) (option R) nat (rbegin _ _ t_begin)
              (rprog _ _ _ _ (text_body (t_contents contents) (t_bad badl) ce)) (rret _ _ tres) t_env (opt_eqb r_eqb) opt_r_refl
              (rbody _ _ _ _ (text_body (t_contents contents) (t_bad badl) ce))
              (rprog_cs _ _ _ _ (text_body (t_contents contents) (t_bad badl) ce)) (tr_init calls st) sch (fuel_for sch calls)
